@@ -282,6 +282,9 @@ def run(ctx):
                 kind = "sinh"        # data that do have a sinh root on every timeslice away from the midpoint
         obs = base_obs(T, kind)
         pat = tuple(rng.random() < 0.85 for _ in range(T))
+        if fam == "root" and (i // 6) % 3 == 2 and i % 2 == 0:
+            hole = T // 2 + rng.choice([-1, 0, 1])        # an undefined timeslice next to the midpoint
+            pat = tuple(k and j != hole for j, k in enumerate(pat))
         corr = _mk_corr(pe, obs, pat)
         try:
             if fam in ("deriv", "second_deriv", "m_eff"):
@@ -317,6 +320,19 @@ def run(ctx):
                     ctx.skip("observable level: all undefined")
                     continue
                 res = corr.m_eff(v)
+                # every output timeslice references C(t) and C(t+1): defined only where both are (the filled midpoint slices of sinh included)
+                for tt in range(T - 1):
+                    if res.content[tt] is not None and not (pat[tt] and pat[tt + 1]):
+                        ctx.fail("m_eff:%s:defined-where-reference-undefined" % v, "m_eff('%s') is defined at t=%d (T=%d) although a referenced timeslice is undefined" % (v, tt, T),
+                                 {"method": "m_eff", "variant": v, "T": T, "pattern": pat, "t": tt})
+                if v == "sinh" and T % 2 == 0:
+                    # the two midpoint slices carry the entry of their predecessor (documented fill), nothing else
+                    for tt in (T // 2 - 1, T // 2):
+                        if 1 <= tt < T - 1 and res.content[tt] is not None:
+                            prev = res.content[tt - 1]
+                            if prev is None or float(prev[0].value) != float(res.content[tt][0].value):
+                                ctx.fail("m_eff:sinh:midpoint-fill", "m_eff('sinh') at the midpoint slice t=%d (T=%d) is not the entry of its predecessor" % (tt, T),
+                                         {"method": "m_eff", "variant": v, "T": T, "pattern": pat, "t": tt})
                 ts = [t for t in range(T - 1) if res.content[t] is not None and not (v == "sinh" and t in (T / 2, T / 2 - 1))]
                 if not ts:
                     continue
